@@ -212,6 +212,9 @@ func run(c *mon.Ctx) {
 			c.Set("first_race_report", first)
 		}
 	}
+	if c.Counter("undrained_sessions_channel_found_full") == 0 {
+		c.Inconclusive("undrained-event-channel-never-full")
+	}
 	if c.Counter("sock_frames_answered_before_an_older_request") == 0 || c.Counter("max_sock_outstanding_at_client") < 2 {
 		c.Inconclusive("sockets-never-answered-out-of-order")
 	}
@@ -272,6 +275,15 @@ func runWorker(c *mon.Ctx) {
 		cfg.Race = race
 		runSession(c, cfg)
 	})
+	und := mine(c.Pick(len(sockConfigs)*3, len(sockConfigs)*60))
+	if race {
+		und = mine(c.Pick(len(sockConfigs), len(sockConfigs)*6))
+	}
+	mon.ParallelN(par, len(und), func(i int) {
+		cfg := makeUndrainedCfg(c.Seed, base+(2<<20)+und[i])
+		cfg.Race = race
+		runSession(c, cfg)
+	})
 	c.Count("perturb_log_events", int64(h.n.Load()))
 	c.Count("perturb_sleeps", h.sleeps.Load())
 	c.Count("perturb_yields", h.yields.Load())
@@ -311,7 +323,11 @@ func replay(c *mon.Ctx) {
 			if scale == 0 {
 				scale = 100
 			}
-			runSession(c, makeSessCfg(c.Seed, d.Index, scale))
+			if d.Session.Undrained {
+				runSession(c, makeUndrainedCfg(c.Seed, d.Index))
+			} else {
+				runSession(c, makeSessCfg(c.Seed, d.Index, scale))
+			}
 		}
 	case d.Workload == "shim-concurrent":
 		perturbLogs(c.Seed)
